@@ -277,7 +277,7 @@ def h18_special_values(S):
     from repid.data._key import RoutingKey
     from repid.dependencies import Depends
 
-    which = S.pick("case", 9)
+    which = S.pick("case", 10)
     nested = S.flag("nested_under_another_provider") if which < 3 or which >= 7 else False
     left = 1
     received = []
@@ -302,7 +302,32 @@ def h18_special_values(S):
     def sandbox():
         return "sandbox"
 
-    if which == 7:
+    override_later = None
+    if which == 9:
+        # an override made while a message is already in flight (its sub-dependency still resolving) applies to the provider call that follows
+        async def slow_sub():
+            import asyncio as _a
+            await _a.sleep(0.01)
+            return "sub"
+
+        async def original(s: Annotated[str, Depends(slow_sub)]):
+            return "original:" + s
+
+        dep = Depends(original)
+        sync_replacement = S.flag("replacement_is_sync")
+        # (the replacement declares the same sub-dependency: what a mid-flight override with another signature should do is not
+        # said by the property - on the unchanged tree that one message fails)
+        if sync_replacement:
+            def replacement(s: Annotated[str, Depends(slow_sub)]):
+                return "replacement:" + s
+        else:
+            async def replacement(s: Annotated[str, Depends(slow_sub)]):
+                return "replacement:" + s
+        override_later = (dep, replacement)
+
+        async def actor(d: Annotated[str, dep]):
+            received.append(d)
+    elif which == 7:
         # a provider failing with one exception type or another, sync or async, with a retry left or not
         import json
         excs = [RuntimeError("boom"), ValueError("bad value"), KeyError("k"), TypeError("t"), LookupError("l"),
@@ -407,7 +432,14 @@ def h18_special_values(S):
         params = P.Parameters(retries=P.RetriesProperties(max_amount=left, already_tried=0), timestamp=P.datetime.now())
         w.broker.queues["default"].processing.add(MemMessage(key, "", params))
         proc = _Processor(w.conn)
-        await proc.process(mk_actor(actor, converter=BasicConverter, retry_policy=lambda retry_number=1: real_timedelta(hours=1)), key, "", params)
+        if override_later is not None:
+            import asyncio as _a
+            t = _a.ensure_future(proc.process(mk_actor(actor, converter=BasicConverter), key, "", params))
+            await _a.sleep(0.005)
+            override_later[0].override(override_later[1])
+            await t
+        else:
+            await proc.process(mk_actor(actor, converter=BasicConverter, retry_policy=lambda retry_number=1: real_timedelta(hours=1)), key, "", params)
         out["ops"] = [x["op"] for x in w.rec.calls]
         rq = [x for x in w.rec.calls if x["op"] == "requeue"]
         out["tried"] = rq[0]["args"][2].retries.already_tried if rq else None
@@ -415,7 +447,11 @@ def h18_special_values(S):
     run_async(main, clock=PinnedClock(T0))
     S.cover("special-values")
     S.tag("case", ["returns-exception-instance", "answers-the-message", "plain", "annotated-dependency-class-with-provider", "two-depends-one-provider",
-                   "partial-as-sync-provider", "process-pool-provider", "provider-raises", "sync-provider-returns-an-awaitable"][which])
+                   "partial-as-sync-provider", "process-pool-provider", "provider-raises", "sync-provider-returns-an-awaitable", "override-while-in-flight"][which])
+    if which == 9:
+        S.check("override-applies-from-then-on", received == ["replacement:sub"] and out["ops"] == ["ack"],
+                info=f"the override was installed while the sub-dependency was still resolving; the actor received {received}")
+        return
     if which == 7:
         S.check("actor-not-invoked-when-a-provider-fails", received == [])
         S.check("provider-failure-follows-the-retry-rules", out["ops"] == (["requeue"] if left else ["nack"]) and (not left or out["tried"] == 1),
